@@ -91,6 +91,29 @@ theorem endsWithPb2_append (s : Str) : endsWithPb2 (s ++ ['_', 'p', 'b', '2']) =
   rw [List.isSuffixOf_iff_suffix]
   exact List.suffix_append _ _
 
+/-- splitting at the first occurrence of a separator is unique -/
+theorem append_sep_inj {α : Type} [DecidableEq α] (c : α) :
+    ∀ (a b x y : List α), c ∉ a → c ∉ b → a ++ c :: x = b ++ c :: y → a = b ∧ x = y := by
+  intro a
+  induction a with
+  | nil =>
+    intro b x y _ hb h
+    cases b with
+    | nil => simpa using h
+    | cons d b' =>
+      simp only [List.nil_append, List.cons_append, List.cons.injEq] at h
+      exact absurd (by rw [← h.1]; exact List.mem_cons_self ..) hb
+  | cons e a' ih =>
+    intro b x y ha hb h
+    cases b with
+    | nil =>
+      simp only [List.nil_append, List.cons_append, List.cons.injEq] at h
+      exact absurd (by rw [h.1]; exact List.mem_cons_self ..) ha
+    | cons d b' =>
+      simp only [List.cons_append, List.cons.injEq] at h
+      have := ih b' x y (fun hc => ha (List.mem_cons_of_mem _ hc)) (fun hc => hb (List.mem_cons_of_mem _ hc)) h.2
+      exact ⟨by rw [h.1, this.1], this.2⟩
+
 end Aux
 
 /-! ## Path, arity -/
@@ -111,6 +134,23 @@ theorem rpc_path_injective (svc : Service) (a b : Method) (h : rpcPath svc a = r
   unfold rpcPath at h
   have h1 := List.append_cancel_left h
   simpa using h1
+
+/-- **Two services of one API on one channel are told apart by the path**: for services of the same
+package whose names contain no `/` (protoc: identifiers), equal paths mean the same service name and
+the same RPC name — an RPC `Import` of `Library` and an RPC `Import` of `Archive` never collide. -/
+theorem rpc_path_service_injective (s1 s2 : Service) (m1 m2 : Method) (hp : s1.package = s2.package)
+    (h1 : '/' ∉ s1.name) (h2 : '/' ∉ s2.name) (h : rpcPath s1 m1 = rpcPath s2 m2) :
+    s1.name = s2.name ∧ m1.name = m2.name := by
+  unfold rpcPath at h
+  rw [hp] at h
+  simp only [List.cons_append, List.append_assoc, List.cons.injEq, true_and] at h
+  have h' := List.append_cancel_left h
+  simp only [List.cons.injEq, true_and] at h'
+  exact append_sep_inj '/' s1.name s2.name m1.name m2.name h1 h2 h'
+
+example : rpcPath { package := [['a']], name := ['L'], methods := [] }
+      { name := ['I'], input := ⟨[], [], [], [], []⟩, output := ⟨[], [], [], [], []⟩, clientStreaming := false, serverStreaming := false }
+    = ['/', 'a', '.', 'L', '/', 'I'] := by decide
 
 /-- the path ends in `/<Method>` -/
 theorem rpc_path_suffix (svc : Service) (m : Method) : ('/' :: m.name) <:+ rpcPath svc m := by
@@ -439,6 +479,18 @@ theorem unsafe_names_suffixed :
       snake (transportSafeName pinnedTables w.toList) ∉
         ["create_channel".toList, "grpc_channel".toList, "operations_client".toList, "close".toList, "kind".toList] ∧
       clientMethodName pinnedTables w.toList = w.toList := by decide
+
+/-- all spellings of a word that differ only in letter case -/
+def caseVariants : List Char → List (List Char)
+  | [] => [[]]
+  | c :: r => (caseVariants r).flatMap fun t => [c :: t, Char.ofNat (c.toNat - 32) :: t]
+
+/-- `WF.later` for the names the table is about: EVERY spelling of `close` / `kind` (48 RPC names,
+`Close`, `CLOSE`, `kInd`, …) gets a stub key different from the two members defined after the stubs. -/
+theorem later_members_never_hit :
+    ∀ w ∈ caseVariants ['c', 'l', 'o', 's', 'e'] ++ caseVariants ['k', 'i', 'n', 'd'],
+      snake (transportSafeName pinnedTables w) ≠ ['c', 'l', 'o', 's', 'e'] ∧
+      snake (transportSafeName pinnedTables w) ≠ ['k', 'i', 'n', 'd'] := by decide
 
 theorem keyword_names_suffixed :
     ∀ w ∈ ["Import", "Class", "Global", "Return", "Yield", "Async", "Await", "Not", "from", "IMPORT"],
